@@ -7,7 +7,9 @@ CLAIMED = {
     "C01": {"text": "Every obligation generated from the contracts of the pandas built-in checks and per-field core checks is discharged by SMT for all inputs "
                     "(all series lengths, values, nulls, bounds, flags). Covers the leaf predicates, the field-level core checks incl. check_dtype, the composition "
                     "(every parser and every core check runs on every validate, also for a frame that already carries the schema in its .pandera accessor; every failing "
-                    "result is reported) and - shape-bounded - column presence / strict / filter / order.",
+                    "result is reported), the whole check pipeline from Check.__call__ to the CheckResult (back-end __call__, the preprocess / apply / postprocess dispatchers over the "
+                    "full object-kind x output-kind matrix, apply_field / apply_table / apply_dict: no verdict without calling the check function; table-shaped output bounded), joint "
+                    "uniqueness and - shape-bounded - column presence / strict / filter / order.",
             "note": COMMON_NOTE + "Regex matching is an uninterpreted relation; reshape_failure_cases is opaque."},
     "C18": {"text": "Environment parsing, context save/override/restore on every exit of an arbitrary with-body (generator split at the yield), the scope wrapper "
                     "skip rule, report filtering and the polars depth default are proved for all option values / all depths; the kill switch "
@@ -16,62 +18,70 @@ CLAIMED = {
                     "codes it reports; call-site obligation that parser-stage errors respect the depth (refuted: known finding).",
             "note": COMMON_NOTE + "The with-body is an arbitrary effect on the context configuration; copy.copy model."},
     "C19": {"text": "Alias constructors are proved to be exactly one call of the canonical constructor with the same arguments; ignore_na/element_wise/"
-                    "n_failure_cases/raise_warning semantics of the pandas check back end are proved for all series and option values.",
+                    "n_failure_cases/raise_warning semantics of the pandas check back end are proved for all series and option values; group-by checks (call and group formatting); the "
+                    "check pipeline shared with C01 (every option acts only in the step that documents it; dispatch never skips a step).",
             "note": COMMON_NOTE + "groupby(...).head(n) is axiomatised as an arbitrary sub-selection; user predicates are S-callbacks."},
     "C02": {"text": "ErrorHandler.collect_error/collect_errors are proved (eager raises exactly the offered error and records nothing; lazy appends exactly one "
                     "record), every collection loop is proved to offer each failing core result exactly once, in order, carrying the result's fields, the component "
                     "loop loses and invents nothing, and the lazy/eager agreement follows as a lemma over those contracts; the same for the polars container; which cells a "
-                    "failing check reports (postprocess_field: exactly the rows whose output is False, also under repeated labels). The reshape/consolidate pipelines "
-                    "are not under contract.",
+                    "failing check reports (postprocess_field: exactly the rows whose output is False, also under repeated labels); every run_checks of both back ends yields one "
+                    "result per declared check. The reshape/consolidate pipelines are not under contract.",
             "note": COMMON_NOTE + "reshape_failure_cases / consolidate_failure_cases are opaque (pandas unstack/concat pipelines); SchemaErrors.__init__ is used through its contract."},
     "C03": {"text": "Lineage obligations on the real bodies of DataFrameSchemaBackend.validate, ArraySchemaBackend.validate and SeriesSchema.validate: the object that is "
                     "checked and returned is the result of the whole parser chain in order (each parser under its interface contract); drop_invalid_rows row algebra "
                     "proved for pandas (all error counts, closed-form loop invariant) and polars (all frames, <= 3 errors); the polars container (parsers in documented order, "
                     "sub-sample taken from the parsed frame, result is the parsed frame) and column back end; polars add_missing_columns (declared dtype, nothing lost, "
-                    "nothing else added) and set_default (present columns only). Idempotence of the individual parsers (library casts) is not decided.",
+                    "nothing else added), set_default (present columns only) and strict_filter_columns on frames that hold columns column_info does not list (the added ones are kept). "
+                    "Idempotence of the individual parsers (library casts) is not decided. drop_invalid_rows combined with head/tail/sample on polars is refuted (known finding).",
             "note": COMMON_NOTE + "The parsers add_missing_columns/strict_filter_columns/set_defaults/coerce_dtype are replaced by interface contracts (return a derived table or raise "
                     "SchemaError(s)); dtype coercion semantics are pandas/polars facts (C10)."},
     "C04": {"text": "Ownership/frame obligations on every validate entry point of the pandas back end (container, array, column, index, series) and the polars API: with "
                     "inplace=False no callee that writes in place ever receives the caller's object; container kind preserved (polars DataFrame/LazyFrame at the API level, "
                     "LazyFrame in / LazyFrame out in the polars column back end incl. drop_invalid_rows); MultiIndex back end; the Index back end hands the index values on "
-                    "under positional labels.",
+                    "under positional labels; copy-on-entry is a DEEP copy (preprocess of the array and container back ends; shallow copies and column views share buffers in the "
+                    "theory) and set_default never fills the caller's Series in place.",
             "note": COMMON_NOTE + "S-lib mutator table (which library operations write their receiver) is assumed; MultiIndexBackend.validate is covered by the fix but not under contract."},
     "C05": {"text": "Frame obligations (every attribute of every pre-existing schema object equals its entry value on every normal and exceptional exit) on the "
                     "validate call graph of the pandas back end, including the mutate-then-revert idioms, for every component kind and every outcome of the component's validate; "
-                    "MultiIndexBackend.validate and the polars component functions work on private copies (proved for every outcome).",
+                    "MultiIndexBackend.validate and the polars component functions work on private copies (proved for every outcome); every `check` override of the numpy / pandas / "
+                    "polars engine dtypes leaves its receiver and its argument unwritten on every exit (native dtype objects and data containers are opaque values).",
             "note": COMMON_NOTE + "Serialisation / statistics / strategies / model operations of the property's history alphabet are covered by C12-C16's contracts, not here."},
     "C06": {"text": "Exception-set obligations (only documented classes escape) and restore-on-exceptional-exit obligations with the user callback raising at a symbolic "
                     "position k of each run_checks loop; call-site precondition of drop_invalid_rows; structural obligation that every SchemaError construction site "
-                    "uses a mapped reason code; the polars container / column back ends, polars add_missing_columns and set_default (no polars exception class escapes).",
+                    "uses a mapped reason code; the polars container / column back ends, polars add_missing_columns and set_default (no polars exception class escapes); the mask of a "
+                    "failed polars coercion has one row per data row (else building the report raises); dtype `check` overrides raise nothing.",
             "note": COMMON_NOTE + "Which exceptions library operations raise is declared per model; an undeclared library exception is outside the claim."},
     "C07": {"text": "Decides the sufficient condition data-race freedom on pandera state: the validate call graph is re-verified with the strict frame (no write, not even "
                     "a reverted one, to schema objects or module globals). The three writes that exist are refuted and listed as known findings with deterministic "
                     "callback-gated two-thread replays; everything else is proved. Lazy back-end registration: nothing shared is written before the last register_backend "
                     "call (publish order), every declared type gets its back ends, register_backend is an idempotent publish; writes to live module-level containers of pandera "
-                    "are tracked; Dispatcher.__call__ (the process-wide object behind every built-in check) only reads. Schedules themselves are not enumerated.",
+                    "are tracked; Dispatcher.__call__ (the process-wide object behind every built-in check) only reads; DataFrameModel.to_schema binds only finished objects to the "
+                    "class (no in-place write after publication; the same rule is part of the strict frame everywhere). Schedules themselves are not enumerated.",
             "note": COMMON_NOTE + "pandas/polars/numpy are assumed thread-compatible on distinct data objects; liveness and deadlock are out of reach of contracts."},
     "C08": {"text": "All polars built-in checks are proved against the same spec functions as their pandas twins, and for the 9 comparison/membership checks the REAL "
                     "pandas and polars check back ends are executed side by side symbolically and proved to reach the same verdict for every column, bounds and "
                     "ignore_na=True (ignore_na=False is refuted: known finding). Container level: collect_column_info -> strict_filter_columns -> check_column_presence of BOTH "
                     "back ends against one documented spec of strict / 'filter' / ordered / required / add_missing_columns, for all option values over all column layouts "
                     "with <= 3 declared and <= 3 frame columns (shape-bounded, options symbolic); polars component copies, parsers and null handling of row-wise outputs "
-                    "(ignore_na) as shared with C03/C05/C11.",
+                    "(ignore_na) as shared with C03/C05/C11; polars check_nullable (incl. NaN in float columns) / check_unique against the pandas specs, with bounded stand-ins.",
             "note": COMMON_NOTE + "polars expression semantics (Kleene logic, all() ignoring nulls) are axioms of pyvc/theories/polars_lite.py; the container twins are bounded in the "
                     "column layout (148 layouts, stated in every obligation note), regex columns excluded; parsed-output equality across back ends is not under contract."},
     "C09": {"text": "DataType.check predicates over the live class lattice with symbolic widths, Engine.dtype resolution order for a generic engine (symbolic equivalents table), "
                     "engine-specific check/dtype entry points, the 27 from_parametrized_dtype converters (every parameter of the native type is forwarded, for all native objects), "
+                    "registration (register_dtype registers the parametrised-dtype hook of a class only if the class itself defines it; _register_from_parametrized_dtype), "
                     "and an exhaustive structural closure over every registered key of the numpy/pandas/polars/pyspark engines.",
             "note": COMMON_NOTE + "Parametrised constructors (time zones, units, categories, decimal precision) are bounded stand-ins (listed under bounded, not counted)."},
     "C10": {"text": "The wrappers are proved: try_coerce (pandas, numpy) returns coerce's result, propagates/wraps errors into a ParserError carrying exactly the "
                     "element-wise failure cases; numpy_pandas_coercible is element-wise 'coerce_value does not raise'; schema-level ParserError -> "
-                    "SchemaError(DATATYPE_COERCION) with the same failure cases; polars coercible/failure-case row algebra. The per-dtype casting behaviour "
+                    "SchemaError(DATATYPE_COERCION) with the same failure cases; polars coercible/failure-case row algebra incl. polars_coerce_failure_cases under every way polars can "
+                    "refuse the cast (mask over the data rows, failure cases == masked-out rows); polars column / container coercion helpers. The per-dtype casting behaviour "
                     "(the heart of the property) is a library fact: covered only by a bounded run-time contract on the real try_coerce of the registered types.",
             "note": COMMON_NOTE + "coerce / coerce_value of each data type are S-callbacks in the proofs; the non-strict polars cast is an uninterpreted 'castable' predicate. "
                     "Bounded part: 40 (quick) / 400 (thorough) containers per data type, length <= 5."},
     "C11": {"text": "pandas drop_invalid_rows: rows(result) == rows whose label no collected error reports, for any number of errors (closed-form invariant), values/order kept; "
                     "polars: rows kept iff every row-aligned check output is true, for all frames and <= 3 errors; what a row-wise polars check reports per row "
-                    "(ignore_na leaves no null output, column and dataframe-level checks); the call-site precondition (only row-attributable errors) is refuted and listed "
-                    "(pandas and polars).",
+                    "(ignore_na leaves no null output, column and dataframe-level checks); the row masks of polars nullability / uniqueness / failed coercion are over the data rows; "
+                    "the call-site preconditions (only row-attributable errors; masks over the frame that is filtered, i.e. no head/tail/sample) are refuted and listed.",
             "note": COMMON_NOTE + "MultiIndex label round trip through str/eval and reshape_failure_cases' 'index' column are not under contract."},
     "C12": {"text": "YAML/JSON leg: the live serialisers and deserialisers are executed as composite round trips (through an assumed dump+load transport that is the identity on "
                     "the JSON domain) and proved attribute by attribute for check statistics/options of all 15 built-in checks, components and whole schemas; script leg: every "
@@ -80,7 +90,8 @@ CLAIMED = {
     "C13": {"text": "The 14 check strategies are proved against the C01 spec functions (support of the result inside dtype domain and check meaning, chained or base) for "
                     "int64/float64/str, numpy_time_dtypes bounds for datetime/timedelta; field_element_strategy's chaining loop with the invariant support(elements) within the intersection of the checks seen; flag flow of the "
                     "series/index/column assembly and schema strategy entry points; the post-processing pipeline of dataframe_strategy (custom checks without strategy are "
-                    "evaluated on the frame that is emitted, the index component is attached; assembly call abstracted to an arbitrary base strategy); structural dispatcher table.",
+                    "evaluated on the frame that is emitted, the index component is attached; assembly call abstracted to an arbitrary base strategy); structural dispatcher table; "
+                    "structural: no function of the strategy modules keeps state between calls.",
             "note": COMMON_NOTE + "hypothesis strategies are modelled by their support (pyvc/theories/hypothesis_lite.py); data_frames/multiindex assembly is a bounded stand-in."},
     "C14": {"text": "Statistics inference, statistics->checks, schema construction and the check serialisation pipeline are proved over all in-quantifier dtypes; lemma: the inferred "
                     "bounds admit the data and are attained.",
@@ -90,7 +101,7 @@ CLAIMED = {
             "note": COMMON_NOTE + "Dict shapes are enumerated (3 columns, 2-3 index levels, enumerated request lists): a bound of the claim; 'accepts exactly the transformed frames' is a bounded run-time contract."},
     "C16": {"text": "Check/parser collection over an abstract MRO of unbounded depth (closed-form quantified invariants), to_check/to_parser, Field keyword dispatch, "
                     "column/index properties, to_schema caching and parent frame; structural tables for the option wiring.",
-            "note": COMMON_NOTE + "_collect_fields (annotation parsing) is a bounded stand-in over generated hierarchies; config merge functions are covered only there."},
+            "note": COMMON_NOTE + "_collect_fields (annotation parsing) is a bounded stand-in over generated hierarchies; Config / extras inheritance is a bounded enumeration over chains, mixins and diamonds (<= 4 model classes)."},
     "C17": {"text": "For 27 signature shapes (arity <= 3 plus *rest/**kw, sync and async) the real decorator factories and wrappers are symbolically executed for all argument "
                     "values, options and behaviours of schema.validate and the body: option forwarding, gate, transparency, designation independence; decoration-time state "
                     "(closures, handlers) is unchanged by every call (two-phase frame).",
